@@ -4,7 +4,7 @@ use std::ffi::CStr;
 use std::panic::{AssertUnwindSafe, catch_unwind};
 
 use bump_scope::settings::BumpAllocatorSettings;
-use bump_scope::traits::{BumpAllocatorTypedScope, MutBumpAllocatorTypedScope};
+use bump_scope::traits::{BumpAllocatorCore, BumpAllocatorTypedScope, MutBumpAllocatorTypedScope};
 use bump_scope::{BaseAllocator, Bump, BumpBox, BumpString, BumpVec, FixedBumpString, FixedBumpVec, MutBumpString, MutBumpVec};
 
 use sim::heap;
@@ -492,7 +492,84 @@ pub fn drive_shared<'b, B: BumpAllocatorTypedScope<'b> + Clone>(ctx: &mut Ctx, b
     }
 }
 
-fn one_mut<'b, B: MutBumpAllocatorTypedScope<'b>>(ctx: &mut Ctx, bump: &mut B, first: &Op) -> Option<(String, String)> {
+/// Positions of all chunks (small to big), index of the current one, allocated bytes.
+type Pos = (Vec<(usize, usize)>, Option<usize>, usize);
+
+fn any_positions(st: bump_scope::stats::AnyStats<'_>) -> Pos {
+    let chunks: Vec<(usize, usize)> = st.small_to_big().map(|c| (c.chunk_start().as_ptr() as usize, c.bump_position().as_ptr() as usize)).collect();
+    let cur = st.current_chunk().map(|c| c.chunk_start().as_ptr() as usize);
+    (chunks.clone(), cur.and_then(|s| chunks.iter().position(|c| c.0 == s)), st.allocated())
+}
+
+/// C15: every chunk up to and including the original current chunk keeps its position; the current chunk may only
+/// move forward to a later one.
+fn check_positions(ctx: &mut Ctx, mark: &Pos, now: &Pos, what: &str) {
+    if !ctx.c15 {
+        return;
+    }
+    let upto = mark.1.map_or(0, |c| c + 1);
+    for i in 0..upto {
+        if now.0.get(i) != Some(&mark.0[i]) {
+            ctx.viol("C15/position-moved", format!("{what}: the bump position of chunk #{i} changed while an exclusive-borrow string was being filled or dropped"));
+            return;
+        }
+    }
+    match (mark.1, now.1) {
+        (a, b) if a == b => {}
+        (Some(a), Some(b)) if b > a => ctx.stats.probe("c15.moved_to_later_chunk"),
+        (None, Some(_)) => ctx.stats.probe("c15.moved_to_later_chunk"),
+        _ => ctx.viol("C15/current-chunk-went-back", format!("{what}: current chunk index went from {:?} to {:?}", mark.1, now.1)),
+    }
+}
+
+/// C15: gone without being finalised: same position, or a later chunk that is still empty.
+fn check_unfinalised<B: BumpAllocatorCore + ?Sized>(ctx: &mut Ctx, b: &B, mark: &Pos, what: &str) {
+    if !ctx.c15 {
+        return;
+    }
+    let now = any_positions(b.any_stats());
+    check_positions(ctx, mark, &now, what);
+    if now.1 != mark.1 {
+        let used = b.any_stats().current_chunk().map_or(0, |c| c.allocated());
+        if used != 0 {
+            ctx.viol("C15/later-chunk-not-empty", format!("{what}: a later chunk became current and has {used} bytes allocated"));
+        }
+    } else if now.2 != mark.2 {
+        ctx.viol("C15/position-moved", format!("{what}: allocated() went from {} to {}", mark.2, now.2));
+    }
+}
+
+/// C15: finalised with `bytes` bytes of contents: the position advanced by at most that plus the minimum-alignment padding.
+fn check_finalised<B: BumpAllocatorCore + ?Sized>(ctx: &mut Ctx, b: &B, mark: &Pos, bytes: usize, min_align: usize, what: &str) {
+    if !ctx.c15 {
+        return;
+    }
+    let now = any_positions(b.any_stats());
+    let bound = bytes + (min_align - 1);
+    if now.1 == mark.1 {
+        let delta = now.2.wrapping_sub(mark.2);
+        if now.2 < mark.2 || delta > bound {
+            ctx.viol("C15/finalise-wasted-space", format!("{what}: {bytes} bytes of contents moved allocated() from {} to {} (bound {bound})", mark.2, now.2));
+        }
+    } else {
+        check_positions(ctx, mark, &now, what);
+        let used = b.any_stats().current_chunk().map_or(0, |c| c.allocated());
+        if used > bound {
+            ctx.viol("C15/finalise-wasted-space", format!("{what}: {bytes} bytes of contents in a fresh chunk left {used} > {bound} bytes allocated in it"));
+        }
+    }
+    ctx.stats.probe("c15.finalised");
+}
+
+/// What became of one exclusive-borrow string.
+enum StrFin {
+    NotCreated,
+    Unfinalised,
+    /// finalised, with this many bytes of contents (including the NUL of a C string)
+    Finalised(usize),
+}
+
+fn one_mut<'b, B: MutBumpAllocatorTypedScope<'b> + BumpAllocatorCore>(ctx: &mut Ctx, bump: &mut B, first: &Op, mark: &Pos) -> StrFin {
     let try_ = !ctx.panicking_ok(first) || first.a[4] & 1 == 1;
     let src = text(first.a[1], first.a[2] as usize % 20);
     let n = first.a[2] as usize % 24;
@@ -519,23 +596,23 @@ fn one_mut<'b, B: MutBumpAllocatorTypedScope<'b>>(ctx: &mut Ctx, bump: &mut B, f
                 mv.try_extend_from_slice_copy(&bytes).map_err(drop)?;
                 Ok(mv)
             });
-            let mv = settle(ctx, r, "MutBumpVec<u8>")?;
+            let Some(mv) = settle(ctx, r, "MutBumpVec<u8>") else { return StrFin::NotCreated };
             match (MutBumpString::from_utf8(mv), std) {
                 (Ok(s), Ok(m)) => (Outcome::Ok(s), m),
                 (Err(e), Err(se)) => {
                     if e.utf8_error() != se.utf8_error() {
                         ctx.viol("C09/from-utf8", "MutBumpString::from_utf8: error differs from std".into());
                     }
-                    return None;
+                    return StrFin::Unfinalised;
                 }
                 _ => {
                     ctx.viol("C09/from-utf8", "MutBumpString::from_utf8 disagrees with String::from_utf8".into());
-                    return None;
+                    return StrFin::Unfinalised;
                 }
             }
         }
     };
-    let mut v = settle(ctx, created, "MutBumpString constructor")?;
+    let Some(mut v) = settle(ctx, created, "MutBumpString constructor") else { return StrFin::NotCreated };
     if v.as_str() != m {
         ctx.viol("C09/contents-mismatch", format!("constructor: got {:?}, expected {:?}", v.as_str(), m));
         m = v.as_str().to_string();
@@ -547,6 +624,11 @@ fn one_mut<'b, B: MutBumpAllocatorTypedScope<'b>>(ctx: &mut Ctx, bump: &mut B, f
         }
         if op.kind <= LAST_COMMON {
             exec_common(ctx, &mut v, &mut m, &op);
+            if ctx.c15 {
+                let st: bump_scope::stats::AnyStats = v.allocator_stats().into();
+                let now = any_positions(st);
+                check_positions(ctx, mark, &now, "while a MutBumpString is being filled");
+            }
         } else if matches!(op.kind, K_FINISH | K_DROP | K_CONVERT) {
             fin = Some(op);
             break;
@@ -558,10 +640,12 @@ fn one_mut<'b, B: MutBumpAllocatorTypedScope<'b>>(ctx: &mut Ctx, bump: &mut B, f
             let try_ = !ctx.panicking_ok(&fin) || fin.a[1] & 1 == 1;
             let r = ctx.call(&fin, || if try_ { v.try_into_cstr().map_err(drop) } else { Ok(v.into_cstr()) });
             if let Some(c) = settle(ctx, r, "into_cstr") {
+                let n = c.to_bytes_with_nul().len();
                 check_cstr(ctx, c, &m, "into_cstr");
                 ctx.stats.probe("cstr.into_cstr");
+                return StrFin::Finalised(n);
             }
-            None
+            StrFin::Unfinalised
         }
         K_CONVERT => {
             let b = v.into_boxed_str();
@@ -569,14 +653,15 @@ fn one_mut<'b, B: MutBumpAllocatorTypedScope<'b>>(ctx: &mut Ctx, bump: &mut B, f
             if got != m {
                 ctx.viol("C09/conversion-contents", format!("into_boxed_str: got {:?}, expected {:?}", got, m));
             }
-            Some((got, m))
+            StrFin::Finalised(got.len())
         }
-        _ => None,
+        _ => StrFin::Unfinalised,
     }
 }
 
-pub fn drive_mut<'b, B: MutBumpAllocatorTypedScope<'b>>(ctx: &mut Ctx, bump: &mut B) {
+pub fn drive_mut<'b, B: MutBumpAllocatorTypedScope<'b> + BumpAllocatorCore>(ctx: &mut Ctx, bump: &mut B, min_align: usize) {
     while let Some(first) = ctx.next_op() {
+        let mark: Pos = any_positions(bump.any_stats());
         if ctx.verbose {
             eprintln!("[{}] create via {}", ctx.cur_op, sim::trace::op_text(&first, OP_NAMES));
         }
@@ -592,11 +677,19 @@ pub fn drive_mut<'b, B: MutBumpAllocatorTypedScope<'b>>(ctx: &mut Ctx, bump: &mu
                         if fails || got != full {
                             ctx.viol("C09/contents-mismatch", format!("alloc_fmt_mut: got {:?}, expected {:?} (display error: {fails})", got, full));
                         }
+                        check_finalised(ctx, &*bump, &mark, got.len(), min_align, "alloc_fmt_mut");
                     }
-                    Outcome::AllocFailed if fails => ctx.stats.probe("fmt.display_error"),
-                    Outcome::LibPanic(m) if fails && m.contains("formatting trait") => ctx.stats.probe("fmt.display_error"),
+                    Outcome::AllocFailed if fails => {
+                        ctx.stats.probe("fmt.display_error");
+                        check_unfinalised(ctx, &*bump, &mark, "alloc_fmt_mut whose Display impl failed");
+                    }
+                    Outcome::LibPanic(m) if fails && m.contains("formatting trait") => {
+                        ctx.stats.probe("fmt.display_error");
+                        check_unfinalised(ctx, &*bump, &mark, "alloc_fmt_mut whose Display impl failed");
+                    }
                     other => {
                         settle(ctx, other, "alloc_fmt_mut");
+                        check_unfinalised(ctx, &*bump, &mark, "alloc_fmt_mut that failed or unwound");
                     }
                 }
             } else {
@@ -607,17 +700,28 @@ pub fn drive_mut<'b, B: MutBumpAllocatorTypedScope<'b>>(ctx: &mut Ctx, bump: &mu
                             ctx.viol("C09/cstr-shape", format!("alloc_cstr_fmt_mut: got {:?} for the text {:?}", got, full));
                         }
                         ctx.stats.probe("cstr.fmt");
+                        check_finalised(ctx, &*bump, &mark, got.len(), min_align, "alloc_cstr_fmt_mut");
                     }
-                    Outcome::AllocFailed if fails => ctx.stats.probe("fmt.display_error"),
-                    Outcome::LibPanic(m) if fails && m.contains("formatting trait") => ctx.stats.probe("fmt.display_error"),
+                    Outcome::AllocFailed if fails => {
+                        ctx.stats.probe("fmt.display_error");
+                        check_unfinalised(ctx, &*bump, &mark, "alloc_cstr_fmt_mut whose Display impl failed");
+                    }
+                    Outcome::LibPanic(m) if fails && m.contains("formatting trait") => {
+                        ctx.stats.probe("fmt.display_error");
+                        check_unfinalised(ctx, &*bump, &mark, "alloc_cstr_fmt_mut whose Display impl failed");
+                    }
                     other => {
                         settle(ctx, other, "alloc_cstr_fmt_mut");
+                        check_unfinalised(ctx, &*bump, &mark, "alloc_cstr_fmt_mut that failed or unwound");
                     }
                 }
             }
             continue;
         }
-        let _ = one_mut(ctx, &mut *bump, &first);
+        match one_mut(ctx, &mut *bump, &first, &mark) {
+            StrFin::NotCreated | StrFin::Unfinalised => check_unfinalised(ctx, &*bump, &mark, "a MutBumpString that was dropped, unwound or never created"),
+            StrFin::Finalised(n) => check_finalised(ctx, &*bump, &mark, n, min_align, "finalising a MutBumpString"),
+        }
         ctx.drain_heap_errors();
     }
 }
@@ -644,9 +748,9 @@ where
     };
     if kind == 3 {
         if S::UP {
-            drive_mut(ctx, &mut &mut bump)
+            drive_mut(ctx, &mut &mut bump, S::MIN_ALIGN)
         } else {
-            drive_mut(ctx, &mut bump.as_mut_scope())
+            drive_mut(ctx, &mut bump.as_mut_scope(), S::MIN_ALIGN)
         }
     } else if S::UP {
         drive_shared(ctx, &bump.as_scope(), kind)
